@@ -293,7 +293,7 @@ def cup (fx : Fixes) (e : Emu) (pm : List Param) : Emu :=
     | [] => (0, 0)
     | [a] => (a.1 - 1, 0)
     | [a, b] => (a.1 - 1, b.1 - 1)
-    | _ => (e.cur.row, e.cur.col)
+    | a :: b :: _ => if fx.f106d then (a.1 - 1, b.1 - 1) else (e.cur.row, e.cur.col)
   let c := if c > e.width - 1 then e.width - 1 else c
   let r := if r > e.height - 1 then e.height - 1 else r
   let c := if fx.f15 && decide (c < 0) then 0 else c
@@ -465,7 +465,7 @@ def decstbm (fx : Fixes) (e : Emu) (pm : List Param) : Emu :=
     | [] => (0, h - 1)
     | [a] => (a.1 - 1, h - 1)
     | [a, b] => (a.1 - 1, b.1 - 1)
-    | _ => (0, 0)
+    | a :: b :: _ => if fx.f106d then (a.1 - 1, b.1 - 1) else (0, 0)
   let top := if fx.f17 && decide (tb.1 < 0) then 0 else tb.1
   let bot := if fx.f17 && (decide (tb.2 < 0) || decide (tb.2 > h - 1)) then h - 1 else tb.2
   match (top, bot) with
